@@ -165,7 +165,7 @@ def check_target_discipline(ctx: Ctx, classes: List[str]) -> None:
                 mh = [h for h in hooks if h.hook_type == "market" and h.is_before == m.name.startswith("hooked_before")]
                 for h in mh:
                     inst = strip_ver(h.specific_instance) if h.specific_instance is not None else NONE
-                    ok = key(inst).startswith("self.target_market") or (h.in_loop is not None and inst[0] == "sym" and key(strip_ver(h.in_loop.iter)).startswith("self.target_markets"))
+                    ok = key(inst).startswith("self.target_market") or (h.in_loop is not None and inst[0] in ("sym", "bound") and key(strip_ver(h.in_loop.iter)).startswith("self.target_markets"))
                     n += 1
                     ctx.check(ok, m, h.event.node, f"{cname}: market-step hook is registered for a target instance", "specific_instance = target market", short(inst))
                 if mh:
